@@ -211,6 +211,9 @@ func postBlock(fw *formatWriter, source []byte, cursor *commonmark.Cursor) {
 
 func visitInline(fw *formatWriter, source []byte, cursor *commonmark.Cursor) bool {
 	child := cursor.Node().Inline()
+	if child.Kind() != commonmark.TextKind {
+		fw.lineDigits = -1
+	}
 	switch child.Kind() {
 	case commonmark.LinkKind:
 		fw.s("[")
@@ -221,6 +224,9 @@ func visitInline(fw *formatWriter, source []byte, cursor *commonmark.Cursor) boo
 			return false
 		}
 
+		if startsLine(cursor) {
+			fw.lineDigits = 0
+		}
 		bangBeforeLink := nextSiblingKind(cursor) == commonmark.LinkKind
 		for s := spanSlice(source, child.Span()); len(s) > 0; {
 			r, n := utf8.DecodeRune(s)
@@ -231,9 +237,17 @@ func visitInline(fw *formatWriter, source []byte, cursor *commonmark.Cursor) boo
 			switch {
 			case strings.ContainsRune(`\[]*_-+=<>&#~`+"`", r):
 				fw.s(`\`)
+			case (r == '.' || r == ')') && 1 <= fw.lineDigits && fw.lineDigits <= maxListMarkerDigits:
+				// Would be an ordered list marker.
+				fw.s(`\`)
 			case r == '!' && len(s) == n && bangBeforeLink:
 				// Would turn the link into an image.
 				fw.s(`\`)
+			}
+			if fw.lineDigits >= 0 && '0' <= r && r <= '9' {
+				fw.lineDigits++
+			} else {
+				fw.lineDigits = -1
 			}
 			fw.b(s[:n])
 			s = s[n:]
@@ -246,6 +260,29 @@ func visitInline(fw *formatWriter, source []byte, cursor *commonmark.Cursor) boo
 			return false
 		}
 		fw.b(spanSlice(source, child.Span()))
+		return false
+	}
+}
+
+// maxListMarkerDigits is the largest number of digits in an ordered list marker.
+const maxListMarkerDigits = 9
+
+// startsLine reports whether the inline at the cursor
+// is the first thing on a line of a paragraph.
+func startsLine(cursor *commonmark.Cursor) bool {
+	switch cursor.ParentBlock().Kind() {
+	case commonmark.ParagraphKind, commonmark.SetextHeadingKind:
+	default:
+		return false
+	}
+	i := cursor.Index()
+	if i == 0 {
+		return cursor.Parent().Block() != nil
+	}
+	switch cursor.Parent().Child(i - 1).Inline().Kind() {
+	case commonmark.SoftLineBreakKind, commonmark.HardLineBreakKind:
+		return true
+	default:
 		return false
 	}
 }
@@ -419,6 +456,10 @@ type formatWriter struct {
 	// the container's first block continues on the same line.
 	atContentStart bool
 
+	// lineDigits is the number of digits that the text of the current line consists of,
+	// or -1 if the line contains anything else.
+	lineDigits int
+
 	hasWritten bool
 	err        error
 }
@@ -426,9 +467,9 @@ type formatWriter struct {
 func newFormatWriter(w io.Writer) *formatWriter {
 	sw, ok := w.(stringWriter)
 	if !ok {
-		return &formatWriter{w: fallbackStringWriter{w}}
+		return &formatWriter{w: fallbackStringWriter{w}, lineDigits: -1}
 	}
-	return &formatWriter{w: sw}
+	return &formatWriter{w: sw, lineDigits: -1}
 }
 
 func (fw *formatWriter) push(indent string) {
